@@ -30,6 +30,14 @@ func init() {
 	})
 }
 
+// scribble overwrites a byte buffer the caller handed to a parser: the caller is free to reuse its read
+// buffer once the call has returned, and the result must not change with it.
+func scribble(b []byte) {
+	for i := range b {
+		b[i] = "/=\" 0Zz\n"[i%8]
+	}
+}
+
 type c01Kept struct {
 	rec *gen.GBRecord
 	got poly.Sequence
@@ -160,7 +168,9 @@ func runC01(w *mon.W) {
 			switch mode % 3 {
 			case 0:
 				entry = "ParseFlat"
-				p = mon.Try(func() { got = genbank.ParseFlat([]byte(file)) })
+				buf := []byte(file)
+				p = mon.Try(func() { got = genbank.ParseFlat(buf) })
+				scribble(buf)
 			case 1:
 				entry = "ReadFlat"
 				path := filepath.Join(tmp, "f.seq")
@@ -184,7 +194,9 @@ func runC01(w *mon.W) {
 				p = mon.Try(func() { got = []poly.Sequence{genbank.Read(path)} })
 			} else {
 				entry = "Parse"
-				p = mon.Try(func() { got = []poly.Sequence{genbank.Parse([]byte(file))} })
+				buf := []byte(file)
+				p = mon.Try(func() { got = []poly.Sequence{genbank.Parse(buf)} })
+				scribble(buf)
 			}
 		default:
 			if mode == 5 {
@@ -194,7 +206,9 @@ func runC01(w *mon.W) {
 				p = mon.Try(func() { got = genbank.ReadMulti(path) })
 			} else {
 				entry = "ParseMulti"
-				p = mon.Try(func() { got = genbank.ParseMulti([]byte(file)) })
+				buf := []byte(file)
+				p = mon.Try(func() { got = genbank.ParseMulti(buf) })
+				scribble(buf)
 			}
 		}
 		w.Add("entry_"+entry, 1)
